@@ -90,7 +90,8 @@ mut("c10_circle_center_cache_by_ids", "C10", [("forsys/virtual_edges.py",
 mut("c10_taubin_ambient_errstate", "C10", [("forsys/virtual_edges.py",
     "                    with np.errstate(all='raise'):\n                        xc, yc, r, sigma = cfit.taubinSVD(zipped_coords)\n",
     "                    xc, yc, r, sigma = cfit.taubinSVD(zipped_coords)\n")],
-    "revert of 0f8c781: thread-dependent fallback")
+    "revert of 0f8c781: thread-dependent fallback. Caught (R2) until fix d1144fa made every ForceMatrix build run in raise mode; since then the build that calls the Taubin fit is in raise mode on every thread and this revert no longer changes behaviour",
+    expect="neutralised-by-fix")
 mut("c10_warm_start_from_previous", "C10", [("forsys/fmatrix.py",
     "                x0_original = kwargs.get(\"initial_condition\", np.ones(len(self.frame.internal_big_edges)))\n",
     "                previous = [be.tension if be.tension > 0 else 1.0 for be in self.frame.internal_big_edges]\n                x0_original = kwargs.get(\"initial_condition\", previous)\n")],
